@@ -33,7 +33,7 @@ from ..report import Check
 LEVEL = "other"
 EXPLANATION = ("Def-use and shape rules on the frame set-up: windowed accessor, first channel, min/max not crossed, row "
                "count from the leading dimension, user values never overwritten, widening before differencing, purely "
-               "relative tolerance. The 0.001 tolerance arithmetic, NaN handling and numpy's median numerics are not "
+               "relative tolerance, the reported direction under every sign pattern of the index differences. The 0.001 tolerance arithmetic, NaN handling and numpy's median numerics are not "
                "decided. Carries the known finding that derived values persist between writes.")
 
 
